@@ -284,20 +284,25 @@ Definition conform6 (c : case6) : list Z :=
     end in
   first_fail [ (keys_ok, 60); (seals_ok, 69); (proto_ok, 61); (um_ok, 62); (consume_ok, 64); (pr_ok, 67) ] mism.
 
+(* some seal event of the case has exactly the accepted (signer, domain asked,
+   payload type, payload) *)
+Definition sealed_as_accepted (c : case6) : bool :=
+  existsb (fun sl =>
+             match key_at (c_keys c) (s_kidx sl) with
+             | Some kr => beq (k_canon kr) (c_asigner c)
+             | None => false
+             end
+             && beq (s_dom sl) (c_dom c) && beq (s_pt sl) (c_apt c) && beq (s_pl sl) (c_apl c))
+          (c_seals c).
+
+(* the record's peer ID is the ID (as computed by IDFromPublicKey) of the accepted signer *)
+Definition id_is_signers (c : case6) : bool :=
+  existsb (fun kr => beq (k_canon kr) (c_asigner c) && beq (k_goid kr) (c_recid c)) (c_keys c).
+
 Definition monitor6 (c : case6) : list Z :=
-  let sealed_as_accepted :=
-    existsb (fun sl =>
-               match key_at (c_keys c) (s_kidx sl) with
-               | Some kr => beq (k_canon kr) (c_asigner c)
-               | None => false
-               end
-               && beq (s_dom sl) (c_dom c) && beq (s_pt sl) (c_apt c) && beq (s_pl sl) (c_apl c))
-            (c_seals c) in
-  let id_is_signers :=
-    existsb (fun kr => beq (k_canon kr) (c_asigner c) && beq (k_goid kr) (c_recid c)) (c_keys c) in
   first_fail
-    [ (negb (c_res c =? 1) || sealed_as_accepted, 1);
-      (negb (c_prres c =? 1) || ((c_res c =? 1) && id_is_signers), 2) ] viol.
+    [ (negb (c_res c =? 1) || sealed_as_accepted c, 1);
+      (negb (c_prres c =? 1) || ((c_res c =? 1) && id_is_signers c), 2) ] viol.
 
 (* ---- the two entry points ------------------------------------------------------ *)
 Definition conform_case (l : list Z) : list Z :=
